@@ -44,6 +44,11 @@ VERIF = os.path.dirname(HERE)
 # exception alphabet (all derived from Exception; SystemExit only in tests)
 
 
+def ctrl_payload(tok):
+    """text with characters that str.splitlines() treats as line boundaries but that are not newlines"""
+    return 'p1 ' + tok + '\rp2\x0cp3\x1dp4\x85p5\u2028p6\n'
+
+
 class WorldError(Exception):
     """custom Exception subclass"""
 
@@ -404,6 +409,8 @@ class World:
                 s.buffer.flush()
             elif style == 'badbytes':
                 s.buffer.write(b'\xff\xfe' + tok.encode('ascii') + b'\n')
+            elif style == 'ctrl':
+                s.write(ctrl_payload(tok))
             elif style == 'empty':
                 s.write('')
             else:
